@@ -98,6 +98,8 @@ class Submodule(Module):
             if placeholder is not None:
                 self.children[i] = placeholder
                 replace_child_in_scope_list(placeholder, child)
+            elif child.get_type() in (SUBROUTINE_TYPE_ID, FUNCTION_TYPE_ID):
+                child.restore_interface()
         # Link subroutine/function implementations to prototypes
         if self.ancestor_obj is None:
             return
